@@ -55,8 +55,8 @@ int del_canexit(void) { return 1; }
 void pqfinish(void) {}
 #endif
 #ifdef P_INJECT
-extern char sbuf[16]; extern unsigned g_slen; extern int g_getinfo;
-int getinfo(stralloc *sa, datetime_sec *dt, unsigned long id) { if (ND_BOOL()) return 0; g_getinfo = 1; sa->s = sbuf; sa->len = g_slen; sa->a = 16; *dt = 0; return 1; }
+extern char *sbuf; extern unsigned g_slen; extern int g_getinfo;
+int getinfo(stralloc *sa, datetime_sec *dt, unsigned long id) { if (ND_BOOL()) return 0; g_getinfo = 1; sa->s = sbuf; sa->len = g_slen; sa->a = g_slen; *dt = 0; return 1; }
 #endif
 #ifdef P_TODO
 extern int g_verdict, g_pendingT, g_fail_seen;
